@@ -152,6 +152,7 @@ def e2e_cases(draw):
         cfg["gs_positions"] = [cfg["gs_positions"][0], [cfg["gs_positions"][0][0] + 25.0, cfg["gs_positions"][0][1] - 15.0]]
         cfg["n_wfs"] = 2
     cfg["gap_pick"] = draw(st.integers(0, 5))
+    cfg["threads"] = draw(st.sampled_from([1, 1, 2, 3]))
     cfg["duplicate"] = draw(st.booleans())
     cfg["dup_of"] = draw(st.integers(1, 3))
     cfg["seed"] = draw(st.integers(0, 2**31))
@@ -168,8 +169,8 @@ def e2e_body(ctx, cfg):
             lst[0] = lst[k]
             cfg[key] = lst
     cl, _ = c01.classes_of(cfg)
-    ctx.case(cfg, nontrivial=True, classes=cl + ["duplicate" if dup else "generic"])
-    C32, cm = c01.build(cfg)
+    ctx.case(cfg, nontrivial=True, classes=cl + ["duplicate" if dup else "generic", "threads%d" % cfg.get("threads", 1)])
+    C32, cm = c01.build(cfg, threads=cfg.get("threads", 1))
     C = C32.astype(np.float64)
     n_on = int(np.sum(np.array(cfg["pupil_masks"][0]) == 1))
     p = 2 * n_on
